@@ -163,4 +163,23 @@ theorem checkRefFormat_unfold (n : Bytes) : checkRefFormat n = some true ↔
   simp only [hasInfix_iff, List.forall_mem_cons, compFires_empty, compFires_startsWith, compFires_endsWith,
     List.not_mem_nil, false_imp_iff, implies_true, and_true]
 
+theorem badRefChars_iff (c : UInt8) : c ∉ badRefChars ↔ (c.toNat ≠ 127 ∧ c ∉ b!" ~^:?*[") := by
+  have : c.toNat ≠ 127 ↔ c ≠ 127 := by
+    constructor
+    · intro h h'; subst h'; exact h rfl
+    · intro h h'; apply h; exact UInt8.toNat_inj.mp h'
+  rw [this]
+  simp only [badRefChars, List.mem_cons, List.not_mem_nil, or_false, not_or]
+  grind
+
+theorem splitFirst_snoc_sep (sep : UInt8) (l : Bytes) : [] ∈ (splitFirst sep (l ++ [sep])).2 := by
+  induction l with
+  | nil => simp [splitFirst]
+  | cons b l ih =>
+    simp only [List.cons_append, splitFirst]
+    split
+    · simp [ih]
+    · exact ih
+
+
 end Dulwich.RefFormat
